@@ -27,6 +27,8 @@ def cloud(draw, dmin=2, dmax=5, nonneg=False, allow_few=False):
         # more points than dimensions, all in an r-dimensional affine subspace (r < d), some of its extents thin (down to 1e-3
         # of the largest) but unambiguous: convex combinations of r + 1 anchors v0 + t_j u_j
         r = draw(st.integers(1, d - 1))
+        if draw(st.booleans()):
+            k = draw(st.integers(10 * d, 12 * d))          # many points: other numerical paths in the dimension estimate of the library
         v0 = np.asarray(draw(gens.array((d,), 0.5, 3.0, styles=("raw",))))
         U = np.asarray(draw(gens.array((r, d), 0.0, 2.0, styles=("raw", "sparse")))).reshape(r, d) + np.eye(d)[:r] * 0.5
         t = np.asarray([draw(st.sampled_from([1.0, 1.0, 1e-1, 1e-2, 1e-3])) for _ in range(r)])
